@@ -4,7 +4,10 @@ package main
 import (
 	"bytes"
 	"fmt"
+	"io"
 	"strings"
+	"verifmc/refmodel"
+	"verifmc/streams"
 
 	"github.com/gobwas/ws"
 	"github.com/gobwas/ws/wsutil"
@@ -349,6 +352,137 @@ func main() {
 				}
 			})
 			t.Outcome("wire-is-a-prefix-of-accepted")
+		})
+
+		// The echo loop of the README and of example/autobahn, literally: one Reader with the
+		// control-frame handler as OnIntermediate, one Writer kept for the connection and Reset (or
+		// ResetOp) per message, io.Copy(writer, reader), Flush. For every valid incoming stream the
+		// bytes written are whole frames; taken apart again they are one pong per ping (same payload,
+		// in order) and, message by message, the incoming messages with their opcodes and payloads.
+		r.Part("E6-echo-loop-as-documented", func(t *explore.T) {
+			ctls := []streams.Ctl{{Op: 9, Payload: []byte("pi")}, {Op: 10, Payload: nil}, {Op: 9, Payload: nil}}
+			for _, side := range []streams.Side{streams.Server, streams.Client} {
+				var all [][]streams.Frame
+				streams.Valid(streams.Opts{Depth: t.Pick(3, 4), Side: side, Controls: ctls}, func(fr []streams.Frame) {
+					all = append(all, append([]streams.Frame{}, fr...))
+				})
+				side := side
+				t.Par(len(all), func(i int) {
+					frames := all[i]
+					data, _ := streams.Wire(frames)
+					wantMsgs, open := refmodel.Messages(frames)
+					if open {
+						return
+					}
+					for _, variant := range []string{"Reset", "ResetOp", "Reset/buffer-of-2"} {
+						for _, chunk := range []int{0, 1} {
+							variant, chunk := variant, chunk
+							t.Do(func() string {
+								return fmt.Sprintf("%s %s echoed with %s per message, transport chunk=%d", side, streams.Describe(frames), variant, chunk)
+							}, func() *explore.Fail {
+								src := env.NewSrc(data)
+								src.Policy = env.FixedChunk(chunk)
+								conn := env.NewDst()
+								state := drivers.State(side)
+								ch := wsutil.ControlFrameHandler(conn, state)
+								rd := &wsutil.Reader{Source: src, State: state, CheckUTF8: true, OnIntermediate: ch}
+								var w *wsutil.Writer
+								if variant == "Reset/buffer-of-2" {
+									w = wsutil.NewWriterSize(conn, state, 0, 2)
+								} else {
+									w = wsutil.NewWriter(conn, state, 0)
+								}
+								var err error
+								for {
+									var h ws.Header
+									h, err = rd.NextFrame()
+									if err != nil {
+										break
+									}
+									if h.OpCode.IsControl() {
+										if err = ch(h, rd); err != nil {
+											break
+										}
+										continue
+									}
+									if variant == "ResetOp" {
+										w.ResetOp(h.OpCode)
+									} else {
+										w.Reset(conn, state, h.OpCode)
+									}
+									if _, err = io.Copy(w, rd); err == nil {
+										err = w.Flush()
+									}
+									if err != nil {
+										break
+									}
+								}
+								if err != io.EOF {
+									return explore.Failf("echo-loop-error", "%v", err)
+								}
+								out, rest := drivers.ParseFrames(conn.Bytes())
+								if len(rest) != 0 {
+									return explore.Failf("echo-not-whole-frames", "%d stray bytes", len(rest))
+								}
+								// split the echo into pongs and data messages
+								var pongs [][]byte
+								var dataFrames []streams.Frame
+								for _, f := range out {
+									if f.H.Masked != (side == streams.Client) {
+										return explore.Failf("echo-frame-masking", "%v", f.H)
+									}
+									if f.H.Op == 10 {
+										pongs = append(pongs, f.Payload)
+										continue
+									}
+									if f.H.Op >= 8 {
+										return explore.Failf("echo-unexpected-control-frame", "%v", f.H)
+									}
+									dataFrames = append(dataFrames, streams.Frame{H: f.H, Payload: f.Payload})
+								}
+								// "data that fits the buffer leaves as a single frame": however the incoming message
+								// was cut up, and whatever control frames sat between its fragments
+								nInMsg, lenOfMsg := 0, 0
+								for _, f := range dataFrames {
+									nInMsg++
+									lenOfMsg += len(f.Payload)
+									if f.H.Fin {
+										// (a reader-to-writer copy that fills the buffer *exactly* flushes before it can know
+										// that nothing follows; the clause is applied where there is room to spare)
+										if lenOfMsg < w.Size() && nInMsg != 1 {
+											return explore.Failf("echo-of-a-message-that-fits-the-buffer-in-several-frames", "a message of %d bytes (buffer %d) was echoed as %d frames", lenOfMsg, w.Size(), nInMsg)
+										}
+										nInMsg, lenOfMsg = 0, 0
+									}
+								}
+								gotMsgs, gopen := refmodel.Messages(dataFrames)
+								var wantData []drivers.Event
+								var wantPongs [][]byte
+								for _, e := range wantMsgs {
+									if e.Kind == "msg" {
+										wantData = append(wantData, e)
+									} else if e.Op == 9 {
+										wantPongs = append(wantPongs, e.Payload)
+									}
+								}
+								if gopen || !drivers.EqualEvents(gotMsgs, wantData) {
+									return explore.Failf("echo-differs-from-what-came-in", "echoed %s\nwant   %s", drivers.FmtEvents(gotMsgs), drivers.FmtEvents(wantData))
+								}
+								if len(pongs) != len(wantPongs) {
+									return explore.Failf("echo-pong-count", "%d pongs for %d pings", len(pongs), len(wantPongs))
+								}
+								for k := range pongs {
+									if !bytes.Equal(pongs[k], wantPongs[k]) {
+										return explore.Failf("echo-pong-payload", "pong %d: %x want %x", k, pongs[k], wantPongs[k])
+									}
+								}
+								return nil
+							})
+						}
+					}
+				})
+			}
+			t.Outcome("echoed")
 		})
 
 		// One message of more fragments than a 16-bit counter holds (a one-byte payload per
